@@ -31,6 +31,11 @@ fn main() {
             }
             0
         }
+        "run" if args.get(2).map(|s| s.eq_ignore_ascii_case("C18")).unwrap_or(false) => vf::checks::c18::run(tier, seed),
+        "replay" if args.get(2).map(|s| s.eq_ignore_ascii_case("C18")).unwrap_or(false) => {
+            let path: PathBuf = args.get(3).cloned().unwrap_or_default().into();
+            vf::checks::c18::replay(&path)
+        }
         "run" => driver::run(driver::RunArgs {
             id: args.get(2).cloned().unwrap_or_default(),
             tier,
